@@ -76,6 +76,21 @@ CLAIMED["C17"] = ("serdebr", "TLC model checking of decoder machines and seriali
 CLAIMED["C18"] = ("serdebr", "TLC model checking (three decoder machines in lockstep) + case replay + TLC trace validation",
     "The current decoder, the legacy decoder and the length probe are three machines of SerBackrefs.tla run in lockstep on all structured byte strings up to 8 bytes (same accept set, tree, pair count incl. ghost pairs, probe = consumed); every case is replayed into the implementation; recorded decoder calls on generated/mutated inputs are validated by TraceSerBackrefs.", TB, "5 C18")
 
+ALNOTE = TB + "num-bigint/malachite byte conversions are assumed. Known finding F5 masks other defects only inside its input class (new_substr of an inline small atom with a non-canonical slice)."
+CLAIMED["C12"] = ("alloc", "TLC model checking (mechanism refines property model) + behaviour replay + TLC trace validation",
+    "Alloc.tla is the property (every atom a separately stored byte string, three counters, checkpoints); AllocMech.tla transcribes allocator.rs (u8/atom/pair vectors, inline small atoms, ghost counters, transparent restore, maybe_restore_with_node). MCAlloc checks, over all bounded histories of public operations on a boundary alphabet, that the mechanism refines the model (and reproduces finding F5 at design level when the code's substr-of-inline-atom copy is switched on); every behaviour is replayed on a real Allocator with the counters compared after each call; recorded random histories are validated by TraceAlloc.", ALNOTE, "5 C12")
+CLAIMED["C13"] = ("alloc", "TLC model checking with small caps + behaviour replay + TLC trace validation near the real caps (allocator level and whole-program level)",
+    "MCAlloc with small caps checks: caps never exceeded, an operation fails with the right error exactly when completing it would exceed the cap, a failed call changes nothing. Recorded histories on allocators pre-loaded to within 0..3 of the real caps (add_ghost_atom/add_ghost_pair, new_limited) are validated by TraceAlloc; generated programs run on such pre-loaded allocators are re-executed by the Interp machine (which carries the as-if counters and the caps) and the hook's per-step counter maxima are checked against the caps.", ALNOTE, "5 C13")
+CLAIMED["C14"] = ("alloc", "TLC model checking (reads, immutability, canonical integers) + exhaustive short byte strings + replay + trace validation",
+    "MCAlloc checks on every reachable state that reading any still-valid node returns what it was created with, atom_eq = byte equality, small_number defined iff minimal encoding < 2^26, and integer constructors store the minimal two's-complement encoding (+-2^k+-1 at 20 bit positions); all byte strings <= 2 bytes in both representations are swept; recorded histories carry the projection of all valid nodes, compared by TraceAlloc.", ALNOTE, "5 C14")
+SENOTE = TB + "Atoms above 2^28 bytes only in the thorough tier (zero-filled buffers); known finding F8 (4 GiB atom) is reachable only there."
+CLAIMED["C15"] = ("serde", "TLC model checking of encode/decode machines + case replay + TLC trace validation",
+    "SerClassic.tla: recursive Encode, prefix arithmetic over BigInt up to 2^34, the decode machine, canonical and length machines. MCSerClassic checks round trip, canonicity and the three lengths on all trees <= 7 nodes, the converse on all short byte strings, and the prefix lemma at every class boundary; every case is replayed; recorded ser/len/de/canon/reser events incl. symbolic giant atoms are validated by TraceSerClassic.", SENOTE, "5 C15")
+CLAIMED["C16"] = ("serde", "TLC model checking (decode machine = recursive descent, projections) + case replay + TLC trace validation",
+    "node_from_bytes, parse_triples and tree_hash_from_stream are projections of one decode machine in SerClassic.tla; MCSerClassic checks termination and canonical <=> definition on all structured byte strings up to 5-8 bytes and emits accept/consumed/tree/triples/hash/canonical for replay; recorded random, mutated and truncated inputs are validated by TraceSerClassic.", SENOTE + " The allocator pair limit (62.5M pairs) is outside the modelled domain.", "5 C16")
+CLAIMED["C29"] = ("serde", "TLC model checking of the limited encoder machine + exhaustive limits replay + trace validation",
+    "EncodeLimited(t, L) = Encode(t) if it fits else OutOfMemory; the encoder machine over a limited writer is model-checked against it for all small trees and all L in 0..len+1, all cases are replayed into node_to_bytes_limit / node_to_bytes_backrefs_limit; recorded calls on random trees with every limit are validated by TraceSerClassic.", TB, "5 C29")
+
 NOT_YET = "not claimed yet in this round: the specification module / engine for it is still being built (DESIGN.md A.7)"
 NA = {
     "C32": "agreement with independent implementations of BLS12-381/secp/keccak cannot be decided by a TLA+ specification, and no independent library (py_ecc, python-ecdsa, pycryptodome) is installed; see DESIGN.md section 6",
